@@ -1,3 +1,4 @@
 pub mod explore;
 pub mod refcodec;
 pub mod report;
+pub mod hang;
